@@ -3,7 +3,7 @@
 From DA Require Import Prelude NDArray Array PyRT.
 From DA.Gen Require Import locate_slice.
 From DA.Model Require Import SliceSpec.
-From DA.Proofs Require Import C02_proofs C02_decreasing C02_negstep.
+From DA.Proofs Require Import C02_proofs C02_decreasing C02_negstep C02_step.
 From Coq Require Import Sorted.
 
 (* unbounded: on any increasing numeric axis that the code's own test classifies as monotonic, for
@@ -130,6 +130,41 @@ Example C02_reversed_nonvacuous :
   run_slice (arrQ KF [1; 2.5; 4]%Q) (PNum 3) (PNum 1) (Some (-1)%Z) 3 = Ok [1; 0]%nat /\
   run_slice (arrQ KF [4; 2.5; 1]%Q) (PNum 2) (PNum 5) (Some (-1)%Z) 3 = Ok [1; 0]%nat /\
   run_slice (arrQ KF [1; 2.5; 4]%Q) (PNum 0) (PNum (-1)) (Some (-1)%Z) 3 = Ok [].
+Proof. split; [reflexivity|]. split; reflexivity. Qed.
+(* any POSITIVE step, unbounded in the axis, the bounds and the step: a[lo:hi:s] is exactly every s-th position of the
+   closed bounding box, counted from the first position of the box ([a] below: no earlier position is in the box) *)
+Theorem C02_slice_step_increasing : forall k xs lo hi s,
+  (k = KI \/ k = KF) ->
+  g_is_monotonic_equal (arrQ k xs) = Ok (PBool true) ->
+  axis_increasing xs = true ->
+  StronglySorted Qlt xs ->
+  (0 < s)%Z ->
+  exists a ps,
+    run_slice (arrQ k xs) (PNum lo) (PNum hi) (Some s) (List.length xs) = Ok ps /\
+    (forall i, (i < a)%nat -> ~ (lo <= nth i xs 0)%Q) /\
+    forall i, In i ps <->
+              (i < List.length xs)%nat /\ (lo <= nth i xs 0 /\ nth i xs 0 <= hi)%Q /\
+              exists j, i = (a + j * Z.to_nat s)%nat.
+Proof. exact bbox_slice_step_increasing. Qed.
+Print Assumptions C02_slice_step_increasing.
+Theorem C02_slice_step_decreasing : forall k xs lo hi s,
+  (k = KI \/ k = KF) ->
+  g_is_monotonic_equal (arrQ k xs) = Ok (PBool true) ->
+  axis_increasing xs = false ->
+  StronglySorted Qgt' xs ->
+  (0 < s)%Z ->
+  exists a ps,
+    run_slice (arrQ k xs) (PNum lo) (PNum hi) (Some s) (List.length xs) = Ok ps /\
+    (forall i, (i < a)%nat -> ~ (hi <= nth i xs 0 /\ nth i xs 0 <= lo)%Q) /\
+    forall i, In i ps <->
+              (i < List.length xs)%nat /\ (hi <= nth i xs 0 /\ nth i xs 0 <= lo)%Q /\
+              exists j, i = (a + j * Z.to_nat s)%nat.
+Proof. exact bbox_slice_step_decreasing. Qed.
+Print Assumptions C02_slice_step_decreasing.
+Example C02_step_nonvacuous :
+  run_slice (arrQ KF [1; 2.5; 4; 5; 7; 8]%Q) (PNum 2) (PNum 7.5) (Some 2%Z) 6 = Ok [1; 3]%nat /\
+  run_slice (arrQ KF [8; 7; 5; 4; 2.5; 1]%Q) (PNum 7.5) (PNum 2) (Some 3%Z) 6 = Ok [1; 4]%nat /\
+  run_slice (arrQ KI [1; 2; 3]%Q) (PNum 1) (PNum 3) (Some 5%Z) 3 = Ok [0]%nat.
 Proof. split; [reflexivity|]. split; reflexivity. Qed.
 (* position slices keep Python/NumPy's exclusive-stop meaning *)
 Theorem C02_position_slice : forall a b n,
